@@ -43,3 +43,12 @@ func JSON(v any) string {
 	}
 	return string(b)
 }
+
+// RepoDir is the directory of the code under test (the harness module's replace
+// target): /repo unless VERIF_REPO points the driver at a scratch copy.
+func RepoDir() string {
+	if d := os.Getenv("VERIF_REPO"); d != "" {
+		return d
+	}
+	return "/repo"
+}
